@@ -11,8 +11,8 @@ from lib import vlib
 
 FILES = ["Listeners.tla", "ObserveListeners.tla"]
 SCOPES = {
-    "quick": [("pairs", 2, 2), ("multi", 1, 1)],
-    "thorough": [("pairs", 3, 3), ("multi", 2, 2)],
+    "quick": [("pairs", 2, 2), ("multi", 1, 1), ("two", 2, 3)],
+    "thorough": [("pairs", 3, 3), ("multi", 2, 2), ("two", 3, 3)],
 }
 
 
